@@ -337,21 +337,44 @@ func (g *gen) indexExpr(base Expr, n int, depth int) Expr {
 	if n == 0 {
 		g.class("index:runtime")
 		al := &Builtin{Name: "arrayLength", Args: []Expr{&AddrOf{X: base, Space: "storage"}}, T: TU32}
-		if g.f.HostileIdx {
-			return g.expr(TU32, depth-1)
+		if g.f.HostileIdx && g.inConst == 0 && !g.f.off("restrict.storage-index") {
+			e := g.expr(TU32, depth-1)
+			if IsConstExpr(e) || g.foldableConst(e) {
+				e = g.runtimeLeaf(U32)
+			}
+			return e
 		}
 		return &Binary{Op: "%", L: g.expr(TU32, depth-1), R: al, T: TU32}
 	}
-	if g.f.HostileIdx && g.chance(50, "hostileIdx") {
-		g.class("index:hostile")
-		if g.chance(50, "hidxs") {
-			return g.expr(TI32, depth-1)
+	hostile := g.f.HostileIdx && g.inConst == 0
+	if hostile && !IsRef(base) && g.f.off("restrict.value-array-index") {
+		hostile = false
+	}
+	if hostile && g.f.off("restrict.storage-index") {
+		if rv := RootVar(base); rv != nil && (rv.Kind == VStorage || rv.Kind == VUniform) {
+			hostile = false
 		}
-		return g.expr(TU32, depth-1)
+	}
+	if hostile && g.chance(50, "hostileIdx") {
+		g.class("index:hostile")
+		k := U32
+		if g.chance(50, "hidxs") {
+			k = I32
+		}
+		e := g.expr(Scalar(k), depth-1)
+		if IsConstExpr(e) || g.foldableConst(e) {
+			// a constant out-of-range index is a shader-creation error: keep it a run-time value
+			e = g.runtimeLeaf(k)
+		}
+		return e
 	}
 	// finding C01-13: a by-value array / matrix indexed dynamically is spilled to a variable whose
 	// store sits at the first such use; later uses on other paths read it unwritten
 	valueDyn := !IsRef(base) && base.Type() != nil && (base.Type().K == TArray || base.Type().K == TMat) && g.f.off("value.dynamic-index")
+	if _, isBin := base.(*Binary); isBin && g.f.off("index.of-binary") {
+		// finding C04-2 (MSL): the parentheses around a dynamically indexed binary expression are dropped
+		valueDyn = true
+	}
 	if depth <= 0 || valueDyn || g.chance(45, "cidx") {
 		g.class("index:const")
 		i := g.intn(n, "ci")
@@ -696,4 +719,13 @@ func refsNamedConst(e Expr) bool {
 		return !found
 	})
 	return found
+}
+
+// foldableConst reports whether e is a let-bound name whose initialiser is a
+// constant expression (naga folds through such lets).
+func (g *gen) foldableConst(e Expr) bool {
+	if v, ok := e.(*VarRef); ok && v.V.Kind == VLet && v.V.Init != nil {
+		return IsConstExpr(v.V.Init) || g.foldableConst(v.V.Init)
+	}
+	return false
 }
